@@ -216,11 +216,11 @@ def _deep_strategy(tier):
 
 
 PARTS = {
-    "machine": {"check": make_check({"C02"}, _nt), "strategy": _strategy, "budget": {"quick": 3000, "thorough": 100000}},
-    "deep": {"check": make_check({"C02"}, _nt), "strategy": _deep_strategy, "budget": {"quick": 3000, "thorough": 100000}},
+    "machine": {"check": make_check({"C02"}, _nt), "strategy": _strategy, "budget": {"quick": 3000, "thorough": 60000}},
+    "deep": {"check": make_check({"C02"}, _nt), "strategy": _deep_strategy, "budget": {"quick": 3000, "thorough": 60000}},
     "finite": {"shard": finite_shard, "replay": finite_replay, "budget": {"quick": 1, "thorough": 1}, "exhaustive": True},
     "floats": {"check": floats_check, "strategy": lambda tier: float_triples(), "budget": {"quick": 8000, "thorough": 400000}},
-    "permute": {"check": permute_check, "strategy": lambda tier: permute_cases(), "budget": {"quick": 2000, "thorough": 60000}},
+    "permute": {"check": permute_check, "strategy": lambda tier: permute_cases(), "budget": {"quick": 2000, "thorough": 40000}},
 }
 
 PARTS["fuzz"] = fuzz_part("C02", {"C02"}, _nt)
